@@ -122,6 +122,12 @@ Section Proofs.
     rewrite run_cons, IH. apply step_shared.
   Qed.
 
+  Lemma run_length sched st : length (ths (run sched st)) = length (ths st).
+  Proof.
+    revert st; induction sched as [|u s IH]; intros st; [reflexivity|]. rewrite run_cons, IH, step_ths.
+    destruct (nth_error (ths st) u); [apply upd_length|reflexivity].
+  Qed.
+
   Lemma step_nth t u st :
     nth_error (ths (step u st)) t =
     if Nat.eqb u t then option_map (segT (sh st)) (nth_error (ths st) t) else nth_error (ths st) t.
@@ -346,6 +352,31 @@ Section Proofs.
     rewrite E. exact C.
   Qed.
 
+  (* the hypothesis of own_key_any_program is satisfiable: the compiled entry points, except a
+     verification that names an explicit sigkey, make threads that satisfy it *)
+  Definition no_sigkey (o : op sigv) : Prop := match o with OVerify _ _ (VKey _) => False | _ => True end.
+
+  Lemma gt_plain gon g : Forall plain_get (gt sigv gon g).
+  Proof. unfold gt. destruct (existsb (gate_eqb g) gon); repeat constructor. Qed.
+
+  Lemma compile_plain gon o : no_sigkey o -> Forall plain_get (compile sigv key_of gon o).
+  Proof.
+    intros H. destruct o as [a m|q s vk]; unfold compile;
+      repeat first [apply Forall_app; split | apply gt_plain | constructor; [|] | constructor]; try exact I.
+    destruct vk; [exact I|contradiction|exact I].
+  Qed.
+
+  Lemma init_tinv gon progs :
+    (forall t o, In t progs -> In o (snd t) -> no_sigkey o) ->
+    forall th, In th (ths (init_state sigv key_of gon progs)) -> tinv th.
+  Proof.
+    intros H th Hin. cbn [init_state ths] in Hin. apply in_map_iff in Hin as [[own ops] [<- Hin]].
+    unfold mk_thread, tinv. cbn [fst snd]. split.
+    - split; [intros h; discriminate|constructor].
+    - apply Forall_forall. intros i Hi. apply in_flat_map in Hi as [o [Ho Hi]].
+      pose proof (compile_plain gon o (H _ _ Hin Ho)) as F. rewrite Forall_forall in F. apply F, Hi.
+  Qed.
+
   Lemma own_key_any_program sched st t l p :
     (forall th, In th (ths st) -> tinv th) ->
     nth_error (ths (run sched st)) t = Some (l, p) ->
@@ -440,29 +471,89 @@ Section Main.
     fold (final x) in Hn'. rewrite Hn in Hn'. injection Hn' as <- <-. apply Hf. reflexivity.
   Qed.
 
+  Lemma final_length (x : input sigv) : length (ths (final x)) = length (progs x).
+  Proof.
+    unfold final. rewrite run_length. cbn. apply map_length.
+  Qed.
+
   Lemma complete_outs (x : input sigv) :
     finished sigv (final x) = true ->
     outs sigv (final x) =
     map (fun th => map (op_result sigv sign verify (kof (keys x)) (fst th)) (snd th)) (progs x).
   Proof.
     intros Hf. apply nth_ext with (d := []) (d' := []).
-    - unfold outs, final. rewrite !map_length.
-      (* the number of threads never changes *)
-      assert (L : forall s (st : state sigv), length (ths (run sigv sign verify (kof (keys x)) s st)) = length (ths st)).
-      { induction s as [|u s IH]; intros st; [reflexivity|]. rewrite run_cons, IH, step_ths.
-        destruct (nth_error (ths st) u); [apply upd_length|reflexivity]. }
-      rewrite L. cbn. apply map_length.
+    - unfold outs. rewrite !map_length. apply final_length.
     - intros t Ht. unfold outs in *. rewrite map_length in Ht.
-      destruct (nth_error (ths (final x)) t) as [[l p]|] eqn:N; [|apply nth_error_None in N; lia].
-      destruct (nth_error (progs x) t) as [[own ops]|] eqn:P.
-      + rewrite (nth_error_nth _ _ _ (map_nth_error _ _ _ N)).
-        rewrite (nth_error_nth _ _ _ (map_nth_error _ _ _ P)). cbn [fst snd].
-        assert (p = []).
-        { unfold finished in Hf. rewrite forallb_forall in Hf. specialize (Hf _ (nth_error_In _ _ N)).
-          cbn in Hf. destruct p; [reflexivity|discriminate]. }
-        subst p. eapply finished_results; eassumption.
-      + exfalso. destruct (thread_results sigv sign verify (kof (keys x)) (gon x) (progs x) [] t 0 [])
-          as (? & ? & _); [|]. 2:{ idtac. }
-        all: fail.
+      destruct (nth_error (ths (final x)) t) as [[l p]|] eqn:N.
+      2:{ apply nth_error_None in N. exfalso. apply (Nat.lt_irrefl t). eapply Nat.lt_le_trans; eassumption. }
+      rewrite final_length in Ht. apply nth_error_Some in Ht.
+      destruct (nth_error (progs x) t) as [[own ops]|] eqn:P; [|congruence].
+      erewrite (nth_error_nth _ _ _ (map_nth_error _ _ _ N)).
+      erewrite (nth_error_nth _ _ _ (map_nth_error _ _ _ P)). cbn [fst snd].
+      assert (p = []).
+      { unfold finished in Hf. rewrite forallb_forall in Hf. specialize (Hf _ (nth_error_In _ _ N)).
+        cbn in Hf. destruct p; [reflexivity|discriminate]. }
+      subst p. eapply finished_results; eassumption.
+  Qed.
+
+  (* arbitrary instruction programs, arbitrary shared table, any schedule: a signature produced by
+     thread t verifies only under the key of t's entity *)
+  Lemma own_key_verifies key_of sched (st : state sigv) t l p :
+    (forall th, In th (ths st) -> tinv sigv sign key_of th) ->
+    nth_error (ths (run sigv sign verify key_of sched st)) t = Some (l, p) ->
+    forall q s, In (RSig q s) (out l) ->
+      (exists d, verify (key_of (owner l)) d q s = true) /\
+      (forall k' d' q', verify k' d' q' s = true -> k' = key_of (owner l) /\ q' = q).
+  Proof.
+    intros Hall Hn q s Hin.
+    destruct (own_key_any_program sigv sign verify key_of sched st t l p Hall Hn) as (l0 & p0 & _ & Ho & Hs).
+    destruct (Hs q s Hin) as [d ->]. rewrite <- Ho. split.
+    - exists d. apply verify_ideal. auto.
+    - intros k' d' q' Hv. apply verify_ideal in Hv. tauto.
   Qed.
 End Main.
+
+(* ---------- the hypotheses are satisfiable: term algebra ---------- *)
+Lemma payload_eqb_eq a b : payload_eqb a b = true <-> a = b.
+Proof.
+  destruct a, b. unfold payload_eqb. cbn. rewrite andb_true_iff, !Nat.eqb_eq. split; [intros [-> ->]; reflexivity|intros [= -> ->]; auto].
+Qed.
+
+Lemma tverify_ideal k d p k' d' p' : tverify k' d' p' (tsign k d p) = true <-> k' = k /\ d' = d /\ p' = p.
+Proof.
+  unfold tverify, tsign, tsig_eqb. rewrite !andb_true_iff, !Nat.eqb_eq, payload_eqb_eq.
+  split; [intros [[-> ->] ->]; auto|intros (-> & -> & ->); auto].
+Qed.
+
+Definition tfinal := final tsig tsign tverify.
+Definition tfinal_v0 (x : input tsig) : state tsig :=
+  run_v0 tsig tsign tverify (kof (keys x)) (sched x) (init_state tsig (kof (keys x)) (gon x) (progs x)).
+
+Lemma instance_holds (x : input tsig) : spec tsig tverify x (observe_all tsig tverify (keys x) (outs tsig (tfinal x))).
+Proof. apply own_key_holds. exact tverify_ideal. Qed.
+
+(* two entities (keys 10 and 20) sign with rsa-sha256; all six gates; the schedule lets A obtain
+   its signer, then B, then A sign: A.get; B.get; A.sign; B.sign *)
+Definition all_gates := [GetEnter; GetExit; SignEnter; SignExit; VerEnter; VerExit].
+Definition witness : input tsig :=
+  {| keys := [10; 20]; gon := all_gates;
+     progs := [(0, [OSign 2 1]); (1, [OSign 2 2])];
+     sched := [0; 0; 1; 1; 0; 0; 0; 1; 1; 1] |}.
+
+(* before c928ba99: A's signature is made with B's key *)
+Lemma v0_wrong_key :
+  outs tsig (tfinal_v0 witness) = [[RSig (1, 2) (Sg 20 2 (1, 2))]; [RSig (2, 2) (Sg 20 2 (2, 2))]].
+Proof. vm_compute. reflexivity. Qed.
+
+Lemma v0_refuted : exists x, ~ spec tsig tverify x (observe_all tsig tverify (keys x) (outs tsig (tfinal_v0 x))).
+Proof.
+  exists witness. intros H. apply spec_b_iff in H. vm_compute in H. discriminate.
+Qed.
+
+(* non-vacuity: on the same input the current code finishes and yields both signatures, each
+   under the caller's own key *)
+Example witness_now :
+  finished tsig (tfinal witness) = true /\
+  outs tsig (tfinal witness) = [[RSig (1, 2) (Sg 10 2 (1, 2))]; [RSig (2, 2) (Sg 20 2 (2, 2))]] /\
+  observe_all tsig tverify (keys witness) (outs tsig (tfinal witness)) = [[OSig [true; false]]; [OSig [false; true]]].
+Proof. vm_compute. auto. Qed.
